@@ -123,17 +123,40 @@ def parse_registry():
 # Running one harness
 # --------------------------------------------------------------------------------------------
 class SlotPool:
+    """Target-dir slots shared by all driver processes on this machine (flock per slot)."""
+    NSLOTS = 16
+
     def __init__(self, n):
-        self.free = list(range(n))
         self.lock = threading.Lock()
+        self.held = {}
 
     def get(self):
-        with self.lock:
-            return self.free.pop(0)
+        import fcntl
+
+        os.makedirs(WORK, exist_ok=True)
+        while True:
+            with self.lock:
+                for s in range(self.NSLOTS):
+                    if s in self.held:
+                        continue
+                    f = open(os.path.join(WORK, f"slot{s}.lock"), "w")
+                    try:
+                        fcntl.flock(f, fcntl.LOCK_EX | fcntl.LOCK_NB)
+                    except OSError:
+                        f.close()
+                        continue
+                    self.held[s] = f
+                    return s
+            time.sleep(0.5)
 
     def put(self, s):
+        import fcntl
+
         with self.lock:
-            self.free.append(s)
+            f = self.held.pop(s, None)
+        if f:
+            fcntl.flock(f, fcntl.LOCK_UN)
+            f.close()
 
 
 def gen_dir():
@@ -255,10 +278,10 @@ def classify(h, rc, timed_out, wall, json_out, log_path):
         res["reason"] = "harness not found in results (name mismatch?)"
         return res
     r = mine[0]
-    checks = r.get("checks", [])
-    for c in data.get("cbmc", []):
-        if c.get("harness_id") == h["path"]:
-            st = c.get("cbmc_stats", {})
+    checks = r.get("checks") or []
+    for c in data.get("cbmc") or []:
+        if c and c.get("harness_id") == h["path"]:
+            st = c.get("cbmc_stats") or {}
             res["stats"] = {
                 "symex_s": st.get("runtime_symex_s"),
                 "solver_s": st.get("runtime_decision_procedure_s"),
@@ -382,7 +405,7 @@ def make_replay(prop, h, pool):
         out_dir = os.path.join(WORK, "out")
         log_path = os.path.join(out_dir, h["name"] + ".playback.log")
         cmd = kani_cmd(h, tdir, None, playback=True)
-        run_proc(cmd, base_env(), log_path, max(2 * h["timeout"], 600), max(h["mem"], 12))
+        run_proc(cmd, base_env(), log_path, max(3 * h["timeout"], 900), max(3 * h["mem"], 24))
         log = open(log_path, errors="replace").read()
     finally:
         pool.put(slot)
